@@ -160,7 +160,15 @@ class Ctx:
             f = io.BytesIO(text.encode("utf-8")) if binary \
                 else io.StringIO(text)
             passed.append(f)
+            if not binary and p.get("rot", 0) % 5 == 2:
+                # the stream is the process's standard input (a
+                # configuration piped in): it is the top resource all the
+                # same
+                import sys
+                stdin_swap.append(sys.stdin)
+                sys.stdin = f
             return f
+        stdin_swap = []
         if p["kind"] == "config" and self.loader is not None:
             loader = self.loader
             if name == "wrapper":
@@ -197,6 +205,9 @@ class Ctx:
                     fobj(binary=p.get("rot", 0) % 2 == 1), top)
             o = ops.schema_outcome(fn)
             o.pop("schema", None)
+        if stdin_swap:
+            import sys
+            sys.stdin = stdin_swap[0]
         problems = []
         for f in passed:
             # the top resource IS this stream: closing the Resource built
